@@ -88,6 +88,7 @@ impl Policy for HistPolicy {
         // for the model a reservation declined after a status information is a declined reservation
         let for_model = match &outcome {
             Outcome::StatusThenAbort(c) => Outcome::Abort(*c),
+            Outcome::StatusWithoutReceipt => Outcome::NoStatus,
             o => o.clone(),
         };
         if matches!(outcome, Outcome::StatusThenAbort(_)) {
